@@ -104,6 +104,10 @@ Definition law_aead_shapes : Prop :=
 Definition law_aead_authentic : Prop :=
   forall k n c t p, aead_dec P k n c t = Some p -> bytes_ok p /\ aead_enc P k n p = (c, t).
 
+(* the plaintext returned by decryption does not depend on the tag offered (stream cipher: plaintext = ciphertext xor keystream) *)
+Definition law_aead_plain_by_ct : Prop :=
+  forall k n c t t' p p', aead_dec P k n c t = Some p -> aead_dec P k n c t' = Some p' -> p = p'.
+
 (* bech32 crate: 8 <-> 5 bit regrouping round-trips; encode succeeds for a well-formed lower-case HRP and decode
    inverts it, returning the same HRP *)
 Definition hrp_char_ok (c : N) : bool := (33 <=? c) && (c <=? 126) && negb ((65 <=? c) && (c <=? 90)).
